@@ -70,6 +70,11 @@ def run(tier):
     res = vlib.run_harness("fv-subset", ["c17", "bigcmap", "--out", t3b], timeout=3000)
     ck.add_harness("record:bigcmap", res, traces=False)
     validate(ck, wd, "bigcmap", t3b)
+    # glyphs whose points share one flag byte over runs of 63 .. 300 points (flag repeat counts up to 255)
+    t3c = os.path.join(wd, "longruns.ndjson")
+    res = vlib.run_harness("fv-subset", ["c17", "longruns", "--out", t3c], timeout=3000)
+    ck.add_harness("record:longruns", res, traces=False)
+    validate(ck, wd, "longruns", t3c)
     # the object serializer every rebuilt table goes through: Serializer.tla's call sequences replayed on klippa::serialize
     r = vlib.run_tlc(wd, "Serializer", cfg="Serializer_%s.cfg" % tier, workers=8 if tier == "quick" else 14, timeout=3400, xmx="12g", out_name="serializer.out")
     ck.add_tlc("tlc:Serializer", r)
